@@ -165,6 +165,7 @@ func (e *Engine) registerThreads() {
 				r.mustNot(True, "deadlock", lbl("Par"), "all threads blocked")
 			}
 			t := en[r.schedule(len(en))]
+			r.schedLog = append(r.schedLog, t.id)
 			s.cur = t
 			s.switches++
 			t.resume <- true
